@@ -28,6 +28,8 @@ Record cfg := mkCfg {
                           counting storages, 4 reusable_storage_mtsafe *)
   c_k : rkind;
   c_k2 : option rkind; (* a competing resolver on thread 2 (value / exception / p(drop)) *)
+  c_re : option rkind; (* call_fn_future_awaiter: the handler re-arms the awaiter with a second operation, still pending
+                          when the handler returns, which thread 2 resolves this way *)
   c_cb : nat;          (* converter behaviour on a value: 0 delivers src + c_cd, 1 throws test_exc{c_cd}, 2 resolves the
                           promise with that exception itself, 3 declines (returns without touching the promise), 4 moves
                           the promise to a holder from which thread 2 resolves it later with src + c_cd
@@ -55,6 +57,13 @@ Inductive instr :=
 | ICvSet (r : outcome)  (* p(result) / p(current_exception): claim + set  future_conv.h:69,72 *)
 | ICvPark (r : outcome) (* promise-passing converter moves p to a holder ("claim" in the move constructor) *)
 | ICvDtor               (* ~p at the end of the resume function: a promise that is still held is dropped  future.h:601-606 *)
+| IPark2                (* the re-arming handler: awt << fn parks the second promise ("claim" in the move constructor) *)
+| ISub2 (retry : bool)  (* ... and subscribes the awaiter to the second future  future.h:1048-1053 *)
+| IXWait2               (* thread 2: waits until the second promise has been parked *)
+| IClaim2               (* thread 2 resolves the second operation: claim + set *)
+| IDtorP2               (* ... or drops its promise *)
+| IResolve2
+| IWalk2
 | IOWait                (* thread 2: waits until the converter has parked the outer promise (or the outer future is ready) *)
 | IOClaim               (* thread 2: held(result): claim + set *)
 | ICvResolve            (* resolve of the outer future *)
@@ -94,7 +103,13 @@ Record st := mkSt {
   nconv : nat;           (* converter invocations *)
   ndeliv : nat;          (* deliveries to the outer consumer *)
   nores : nat;           (* outer future resolutions *)
-  log : list (nat * ev)
+  log : list (nat * ev);
+  (* the second operation of a re-arming call_fn_future_awaiter handler: its own future cell *)
+  owner2 : bool;
+  parked2 : bool;
+  slot2 : slotv;
+  payload2 : outcome;
+  nfire2 : nat
 }.
 
 Definition thr (s : st) (i : nat) : list instr :=
@@ -103,11 +118,11 @@ Definition thr (s : st) (i : nat) : list instr :=
 Definition set_thr (s : st) (i : nat) (l : list instr) : st :=
   match i with
   | O => mkSt (owner s) (parked s) (slot s) (payload s) (oprom s) (oslot s) (opayload s) (pheld s) (oheld s) (allocs s) (frees s)
-              l (th1 s) (th2 s) (clk s) (ret1 s) (ret2 s) (won s) (nfire s) (nconv s) (ndeliv s) (nores s) (log s)
+              l (th1 s) (th2 s) (clk s) (ret1 s) (ret2 s) (won s) (nfire s) (nconv s) (ndeliv s) (nores s) (log s) (owner2 s) (parked2 s) (slot2 s) (payload2 s) (nfire2 s)
   | S O => mkSt (owner s) (parked s) (slot s) (payload s) (oprom s) (oslot s) (opayload s) (pheld s) (oheld s) (allocs s) (frees s)
-              (th0 s) l (th2 s) (clk s) (ret1 s) (ret2 s) (won s) (nfire s) (nconv s) (ndeliv s) (nores s) (log s)
+              (th0 s) l (th2 s) (clk s) (ret1 s) (ret2 s) (won s) (nfire s) (nconv s) (ndeliv s) (nores s) (log s) (owner2 s) (parked2 s) (slot2 s) (payload2 s) (nfire2 s)
   | S (S O) => mkSt (owner s) (parked s) (slot s) (payload s) (oprom s) (oslot s) (opayload s) (pheld s) (oheld s) (allocs s) (frees s)
-              (th0 s) (th1 s) l (clk s) (ret1 s) (ret2 s) (won s) (nfire s) (nconv s) (ndeliv s) (nores s) (log s)
+              (th0 s) (th1 s) l (clk s) (ret1 s) (ret2 s) (won s) (nfire s) (nconv s) (ndeliv s) (nores s) (log s) (owner2 s) (parked2 s) (slot2 s) (payload2 s) (nfire2 s)
   | _ => s
   end.
 
@@ -115,32 +130,36 @@ Definition push (s : st) (i : nat) (l : list instr) : st := set_thr s i (l ++ th
 
 Definition tick (s : st) : st :=
   mkSt (owner s) (parked s) (slot s) (payload s) (oprom s) (oslot s) (opayload s) (pheld s) (oheld s) (allocs s) (frees s)
-       (th0 s) (th1 s) (th2 s) (S (clk s)) (ret1 s) (ret2 s) (won s) (nfire s) (nconv s) (ndeliv s) (nores s) (log s).
+       (th0 s) (th1 s) (th2 s) (S (clk s)) (ret1 s) (ret2 s) (won s) (nfire s) (nconv s) (ndeliv s) (nores s) (log s) (owner2 s) (parked2 s) (slot2 s) (payload2 s) (nfire2 s).
 
 (* source cell updates *)
 Definition set_src (s : st) (o pk : bool) (sl : slotv) (p : outcome) : st :=
   mkSt o pk sl p (oprom s) (oslot s) (opayload s) (pheld s) (oheld s) (allocs s) (frees s)
-       (th0 s) (th1 s) (th2 s) (clk s) (ret1 s) (ret2 s) (won s) (nfire s) (nconv s) (ndeliv s) (nores s) (log s).
+       (th0 s) (th1 s) (th2 s) (clk s) (ret1 s) (ret2 s) (won s) (nfire s) (nconv s) (ndeliv s) (nores s) (log s) (owner2 s) (parked2 s) (slot2 s) (payload2 s) (nfire2 s).
 (* outer cell updates *)
 Definition set_out (s : st) (op : bool) (sl : slotv) (p : outcome) (nr : nat) : st :=
   mkSt (owner s) (parked s) (slot s) (payload s) op sl p (pheld s) (oheld s) (allocs s) (frees s)
-       (th0 s) (th1 s) (th2 s) (clk s) (ret1 s) (ret2 s) (won s) (nfire s) (nconv s) (ndeliv s) nr (log s).
+       (th0 s) (th1 s) (th2 s) (clk s) (ret1 s) (ret2 s) (won s) (nfire s) (nconv s) (ndeliv s) nr (log s) (owner2 s) (parked2 s) (slot2 s) (payload2 s) (nfire2 s).
+Definition set_src2 (s : st) (o pk : bool) (sl : slotv) (p : outcome) (nf2 : nat) : st :=
+  mkSt (owner s) (parked s) (slot s) (payload s) (oprom s) (oslot s) (opayload s) (pheld s) (oheld s) (allocs s) (frees s)
+       (th0 s) (th1 s) (th2 s) (clk s) (ret1 s) (ret2 s) (won s) (nfire s) (nconv s) (ndeliv s) (nores s) (log s)
+       o pk sl p nf2.
 Definition set_held (s : st) (ph : bool) (oh : option outcome) : st :=
   mkSt (owner s) (parked s) (slot s) (payload s) (oprom s) (oslot s) (opayload s) ph oh (allocs s) (frees s)
-       (th0 s) (th1 s) (th2 s) (clk s) (ret1 s) (ret2 s) (won s) (nfire s) (nconv s) (ndeliv s) (nores s) (log s).
+       (th0 s) (th1 s) (th2 s) (clk s) (ret1 s) (ret2 s) (won s) (nfire s) (nconv s) (ndeliv s) (nores s) (log s) (owner2 s) (parked2 s) (slot2 s) (payload2 s) (nfire2 s).
 Definition add_log (s : st) (l : list ev) : st :=
   mkSt (owner s) (parked s) (slot s) (payload s) (oprom s) (oslot s) (opayload s) (pheld s) (oheld s) (allocs s) (frees s)
        (th0 s) (th1 s) (th2 s) (clk s) (ret1 s) (ret2 s) (won s) (nfire s) (nconv s) (ndeliv s) (nores s)
-       (log s ++ map (fun e => (clk s, e)) l).
+       (log s ++ map (fun e => (clk s, e)) l) (owner2 s) (parked2 s) (slot2 s) (payload2 s) (nfire2 s).
 Definition set_cnt (s : st) (fr nf nc nd : nat) : st :=
   mkSt (owner s) (parked s) (slot s) (payload s) (oprom s) (oslot s) (opayload s) (pheld s) (oheld s) (allocs s) fr
-       (th0 s) (th1 s) (th2 s) (clk s) (ret1 s) (ret2 s) (won s) nf nc nd (nores s) (log s).
+       (th0 s) (th1 s) (th2 s) (clk s) (ret1 s) (ret2 s) (won s) nf nc nd (nores s) (log s) (owner2 s) (parked2 s) (slot2 s) (payload2 s) (nfire2 s).
 (* a resolver's call returns b (who = 0: inside the init function, nothing is recorded); w: the new ghost winner *)
 Definition set_ret (s : st) (who : nat) (b : bool) (w : nat) : st :=
   mkSt (owner s) (parked s) (slot s) (payload s) (oprom s) (oslot s) (opayload s) (pheld s) (oheld s) (allocs s) (frees s)
        (th0 s) (th1 s) (th2 s) (clk s)
        (match who with S O => Some b | _ => ret1 s end) (match who with S (S O) => Some b | _ => ret2 s end)
-       w (nfire s) (nconv s) (ndeliv s) (nores s) (log s).
+       w (nfire s) (nconv s) (ndeliv s) (nores s) (log s) (owner2 s) (parked2 s) (slot2 s) (payload2 s) (nfire2 s).
 
 Definition out_of (k : rkind) : outcome :=
   match k with KVal v => OVal v | KExc e => OExc e | KDrop => ONone end.
@@ -179,7 +198,10 @@ Definition fire (c : cfg) (s : st) (i : nat) : st :=
   match c_ad c with
   | AConv => push s1 i [ICvClaim]                    (* future_conv.h:60-74: the resume function's hook points follow *)
   | ACallFn =>                                       (* future.h:1056-1060: owner.fn(_fut) *)
-      add_log s1 [ECb (payload s) (allocs s) (frees s); ECbRet (allocs s) (frees s)]
+      let s2 := add_log s1 [ECb (payload s) (allocs s) (frees s); ECbRet (allocs s) (frees s)] in
+      (* a re-arming handler then starts the next operation on the same awaiter: awt << fn, with the hook points of
+         parking the new promise, its parameter's destructor, and the subscription *)
+      match c_re c with Some _ => push s2 i [IPark2; IPriv 2; ISub2 false] | None => s2 end
   | ADiscard =>                                      (* future.h:978-982: delete _this *)
       set_cnt s1 (S (frees s)) (nfire s1) (nconv s) (ndeliv s)
   | _ =>
@@ -191,6 +213,13 @@ Definition fire (c : cfg) (s : st) (i : nat) : st :=
          (reusable_storage, reusable_storage_mtsafe: C19) are not steps of this model; the harness filters them out. *)
       set_cnt s2 (S (frees s)) (nfire s1) (nconv s) (ndeliv s)
   end.
+
+(* the handler runs for the second operation *)
+Definition fire2 (s : st) : st :=
+  add_log (set_src2 s (owner2 s) (parked2 s) (slot2 s) (payload2 s) (S (nfire2 s)))
+          [ECb (payload2 s) (allocs s) (frees s); ECbRet (allocs s) (frees s)].
+
+Definition kind_re (c : cfg) : rkind := match c_re c with Some k => k | None => KDrop end.
 
 Definition deliver (s : st) : st :=
   add_log (set_cnt s (frees s) (nfire s) (nconv s) (S (ndeliv s))) [EODeliv (opayload s)].
@@ -251,6 +280,24 @@ Definition exec (c : cfg) (s : st) (i : nat) (ins : instr) : st * Z :=
   | ICvDtor =>
       (* ~promise: a promise that nobody consumed resolves the outer future without a value *)
       if pheld s then (push (set_held s false (oheld s)) i [ICvResolve], 2) else (s, 2)
+  | IPark2 => (set_src2 s (owner2 s) true (slot2 s) (payload2 s) (nfire2 s), 1)
+  | ISub2 r =>
+      (match slot2 s with
+       | SReady => fire2 s
+       | SEmpty => set_src2 s (owner2 s) (parked2 s) SSub (payload2 s) (nfire2 s)
+       | SSub => push s i [ISub2 true]
+       end, if r then 7 else 6)
+  | IXWait2 => (s, 9)
+  | IClaim2 =>
+      if owner2 s then (push (set_src2 s false (parked2 s) (slot2 s) (out_of (kind_re c)) (nfire2 s)) i [IResolve2], 1)
+      else (s, 1)
+  | IDtorP2 =>
+      if owner2 s then (push (set_src2 s false (parked2 s) (slot2 s) (payload2 s) (nfire2 s)) i [IResolve2], 2)
+      else (s, 2)
+  | IResolve2 =>
+      let s1 := set_src2 s (owner2 s) (parked2 s) SReady (payload2 s) (nfire2 s) in
+      (match slot2 s with SSub => push s1 i [IWalk2] | _ => s1 end, 3)
+  | IWalk2 => (fire2 s, 4)
   | IOWait => (match oheld s with Some _ => push s i [IOClaim] | None => s end, 9)
   | IOClaim =>
       match oheld s with
@@ -275,6 +322,7 @@ Definition enabled (s : st) (i : nat) : bool :=
   match thr s i with
   | [] => false
   | IXWait :: _ => parked s
+  | IXWait2 :: _ => parked2 s
   | IOWait :: _ => match oheld s with Some _ => true | None => match oslot s with SReady => true | _ => false end end
   | _ => true
   end.
@@ -323,8 +371,13 @@ Definition init (c : cfg) : st :=
        (if has_helper (c_ad c) then 1%nat else 0%nat) 0%nat
        (reg_prog c ++ (if is_mode c 3 then res_prog c else []))
        (if is_mode c 2 then IXWait :: res_prog c else [])
-       (match c_k2 c with Some _ => [IXWait; IClaim 2] | None => if is_conv c && Nat.eqb (c_cb c) 4 then [IOWait] else [] end)
-       0%nat None None (if is_mode c 0 then 1%nat else 0%nat) 0%nat 0%nat 0%nat 0%nat [].
+       (match c_k2 c with
+        | Some _ => [IXWait; IClaim 2]
+        | None => if is_conv c && Nat.eqb (c_cb c) 4 then [IOWait]
+                  else match c_re c with Some KDrop => [IXWait2; IDtorP2] | Some _ => [IXWait2; IClaim2] | None => [] end
+        end)
+       0%nat None None (if is_mode c 0 then 1%nat else 0%nat) 0%nat 0%nat 0%nat 0%nat []
+       (match c_re c with Some _ => true | None => false end) false SEmpty ONone 0%nat.
 
 Definition valid (c : cfg) : bool :=
   Nat.leb (c_mode c) 3
@@ -332,7 +385,11 @@ Definition valid (c : cfg) : bool :=
   && (Nat.eqb (c_stor c) 0 || has_functor (c_ad c))
   && (negb (is_mk c) || Nat.leb 2 (c_mode c))
   && (match c_k2 c with Some _ => is_mode c 2 && negb (Nat.eqb (c_cb c) 4) | None => true end)
-  && Nat.leb (c_cb c) 4.
+  && Nat.leb (c_cb c) 4
+  && (match c_re c with
+      | Some _ => (match c_ad c with ACallFn => true | _ => false end) && (match c_k2 c with None => true | Some _ => false end)
+      | None => true
+      end).
 
 (* ---------- schedules ---------- *)
 Definition all_enabled (s : st) : list nat :=
@@ -397,12 +454,20 @@ Definition dec_k2 (isvoid : bool) (ops : list (list Z)) : option (option rkind) 
   | Some _ => None
   end.
 
+(* op 6: the re-arming handler's second operation *)
+Definition dec_re (isvoid : bool) (ops : list (list Z)) : option (option rkind) :=
+  match find_op 6 ops with
+  | None => Some None
+  | Some [k; d] => match dec_k isvoid k d with Some r => Some (Some r) | None => None end
+  | Some _ => None
+  end.
+
 Definition decode (isvoid : bool) (ops : list (list Z)) : option cfg :=
   match find_op 1 ops, find_op 2 ops with
   | Some [a; m; s], Some [k; d] =>
-      match dec_ad a, dec_mode m, dec_nat4 s, dec_k isvoid k d, dec_conv isvoid ops, dec_k2 isvoid ops with
-      | Some a', Some m', Some s', Some k', Some (b, cd), Some k2 => Some (mkCfg a' m' s' k' k2 b cd)
-      | _, _, _, _, _, _ => None
+      match dec_ad a, dec_mode m, dec_nat4 s, dec_k isvoid k d, dec_conv isvoid ops, dec_k2 isvoid ops, dec_re isvoid ops with
+      | Some a', Some m', Some s', Some k', Some (b, cd), Some k2, Some re => Some (mkCfg a' m' s' k' k2 re b cd)
+      | _, _, _, _, _, _, _ => None
       end
   | _, _ => None
   end.
@@ -508,6 +573,10 @@ Definition expected_events (c : cfg) (o : outcome) : list (list Z) :=
   match c_ad c with
   | ADiscard => []
   | ACallFn => [30 :: okind o ++ split_ev c 0 0; 31 :: split_ev c 0 0]
+               ++ (match c_re c with
+                   | Some k => [30 :: okind (out_of k) ++ split_ev c 0 0; 31 :: split_ev c 0 0]   (* once per awaited operation *)
+                   | None => []
+                   end)
   | AConv =>
       (match o with OVal v => [32 :: v :: okind (conv_result c o)] | _ => [] end)
       ++ [33 :: okind (conv_result c o)]
@@ -533,7 +602,7 @@ Definition expected_final (c : cfg) (o : outcome) (r1 r2 : Z) : list (list Z) :=
      end);
     (if is_conv c then 42 :: 1 :: okind (conv_result c o) else [42; 0; 0; 0]);
     [44; r1; r2];
-    [50; if has_cb (c_ad c) then 1 else 0; 0];
+    [50; (if has_cb (c_ad c) then 1 else 0) + (match c_re c with Some _ => 1 | None => 0 end); 0];
     [41; 0] ].
 
 Fixpoint lists_eqb (a b : list (list Z)) : bool :=
